@@ -169,7 +169,71 @@ def replay(prop, path):
     return 0
 
 
+def check_c01(prop, tier, seed):
+    from .drivers import history
+    t0 = time.time()
+    design = design_runs(prop, tier)
+    thorough = tier == 'thorough'
+    camp = campaign.run_campaign('history', 2500 if thorough else 250, seed, profile='C01',
+                                 nops=12 if thorough else 8, maxlen=10 if thorough else 6, more=0.6,
+                                 epilogue=('render8',))
+    if thorough:
+        cases = history.family_cases()
+    else:
+        groups = sorted(history.GROUP_CODES)
+        g1 = groups[seed % len(groups)]
+        g2 = groups[(seed // len(groups) + 1 + seed) % len(groups)]
+        cases = history.family_cases([g1] if g1 == g2 else sorted([g1, g2]))
+    fam = campaign.run_campaign('render_family', len(cases), seed + 1, cases=cases, per_shard_max=4000)
+    merged = merge(camp, fam)
+    return report(prop, tier, seed, t0, merged, design,
+                  extra_cov={'rule': 'every final value of random histories and every value of the enumerated family of '
+                                     'adjacent style states (per group: none/x/y/clear/x+clear/clear+x/x+y on 2-3 characters; '
+                                     'pairs of groups) rendered under all 8 flag combinations; TLC tokenises each output and '
+                                     'runs the terminal model over it',
+                             'family_cases': len(cases), 'family_exhaustive_over_15_groups': thorough})
+
+
+def merge(*camps):
+    out = {'rows': [], 'states': 0, 'transitions': 0, 'events': 0, 'gen_s': 0.0, 'tlc_s': 0.0, 'samples': [], 'errors': []}
+    off = 0
+    for c in camps:
+        for r in c['rows']:
+            r = dict(r)
+            r['tid'] = r['tid'] + off
+            out['rows'].append(r)
+        off += 1000000
+        for k in ('states', 'transitions', 'events'):
+            out[k] += c[k]
+        out['samples'] += c['samples'][:2]
+        out['errors'] += c['errors']
+    return out
+
+
+def check_c02(prop, tier, seed):
+    t0 = time.time()
+    design = design_runs(prop, tier)
+    camp = campaign.run_campaign('parse_input', 40000 if tier == 'thorough' else 3000, seed, per_shard_max=4000)
+    return report(prop, tier, seed, t0, camp, design,
+                  extra_cov={'rule': 'random interleavings of text with SGR sequences (multi-parameter colours at any '
+                                     'position, several sequences at one position, at start/end), non-SGR and unterminated '
+                                     'sequences; non-trivial = input in the claim and containing at least one SGR sequence'})
+
+
+def check_c03(prop, tier, seed):
+    t0 = time.time()
+    design = design_runs(prop, tier)
+    thorough = tier == 'thorough'
+    camp = campaign.run_campaign('history', 6000 if thorough else 500, seed, profile='C03',
+                                 nops=12 if thorough else 8, maxlen=10 if thorough else 6, more=0.6, odd=0.12,
+                                 epilogue=('reparse', 'simplify'))
+    return report(prop, tier, seed, t0, camp, design,
+                  extra_cov={'rule': 'random histories (overlapping, conflicting, shadowing, multi-parameter, verbatim and '
+                                     'invalid settings) each followed by render->parse and simplify()/simplify() on every value'})
+
+
 CHECKS = {p: check_history for p in HIST}
+CHECKS.update({'C01': check_c01, 'C02': check_c02, 'C03': check_c03})
 
 
 def main(argv):
